@@ -339,3 +339,88 @@ func VerifH_C11_childFilter() {
 		}
 	}
 }
+
+// ---- relations
+
+type c11RelDS struct {
+	nodes *c11DS
+	rels  map[osm.RelationID]osm.Relations
+}
+
+func (d *c11RelDS) NodeHistory(ctx context.Context, id osm.NodeID) (osm.Nodes, error) {
+	return d.nodes.NodeHistory(ctx, id)
+}
+func (d *c11RelDS) WayHistory(context.Context, osm.WayID) (osm.Ways, error) { return nil, c11NotFound }
+func (d *c11RelDS) RelationHistory(_ context.Context, id osm.RelationID) (osm.Relations, error) {
+	if r, ok := d.rels[id]; ok {
+		return r, nil
+	}
+	return nil, c11NotFound
+}
+func (d *c11RelDS) NotFound(err error) bool { return err == c11NotFound }
+
+// VerifH_C11_relations: the same guarantees for relations whose members are nodes and
+// a child relation (members keep type/ref/role; version, changeset and location are
+// those of the member version current at the relation's commit time; updates are the
+// later member versions).
+func VerifH_C11_relations() {
+	a := c11GenChild(100, vRange("childVersions", 1, vParam("maxChildVersions", 2)), true, true)
+	children := []*c11Child{a}
+	// a child relation with two versions (no location)
+	sub1c, sub2c := c11Time("subCommitted"), c11Time("subCommitted")
+	vAssume(sub1c < sub2c)
+	t1, t2 := time.Unix(sub1c, 0), time.Unix(sub2c, 0)
+	sub := osm.Relations{
+		{ID: 50, Version: 1, Visible: true, ChangesetID: 11, Timestamp: t1, Committed: &t1},
+		{ID: 50, Version: 2, Visible: true, ChangesetID: 12, Timestamp: t2, Committed: &t2},
+	}
+	np := vRange("parents", 1, vParam("maxParents", 2))
+	var rels osm.Relations
+	var commits []int64
+	for i := 0; i < np; i++ {
+		c := c11Time("parentCommitted")
+		if i > 0 {
+			vAssume(commits[i-1] < c)
+		}
+		vAssume(vAnd(a.vers[0].committed <= c, sub1c <= c))
+		commits = append(commits, c)
+		ct := time.Unix(c, 0)
+		rels = append(rels, &osm.Relation{ID: 7, Version: i + 1, Visible: true, ChangesetID: osm.ChangesetID(vInt64("parentCS")), Timestamp: ct, Committed: &ct,
+			Tags: osm.Tags{{Key: "type", Value: "site"}},
+			Members: osm.Members{{Type: osm.TypeNode, Ref: int64(a.id), Role: "x"}, {Type: osm.TypeRelation, Ref: 50, Role: "sub"}}})
+	}
+	ds := &c11RelDS{nodes: &c11DS{children: children}, rels: map[osm.RelationID]osm.Relations{50: sub}}
+	err := Relations(context.Background(), rels, ds)
+	vReach("annotated")
+	vAssert(err == nil, "no-error")
+	if err != nil {
+		return
+	}
+	for pi, r := range rels {
+		next := c11End
+		if pi+1 < len(rels) {
+			next = commits[pi+1]
+		}
+		v := a.vers[a.cur(commits[pi])]
+		m := r.Members[0]
+		vAssert(m.Type == osm.TypeNode && m.Ref == int64(a.id) && m.Role == "x", "member-identity-kept")
+		vAssert(vSame(osm.Member{Version: m.Version, ChangesetID: m.ChangesetID, Lat: m.Lat, Lon: m.Lon},
+			osm.Member{Version: v.version, ChangesetID: osm.ChangesetID(v.cs), Lat: v.lat, Lon: v.lon}), "node-member-is-version-current-at-parent-commit")
+		subV := 1
+		if sub2c <= commits[pi] {
+			subV = 2
+		}
+		vAssert(r.Members[1].Version == subV && r.Members[1].ChangesetID == osm.ChangesetID(10+subV), "relation-member-is-version-current-at-parent-commit")
+		var want osm.Updates
+		for i := range a.vers {
+			x := a.vers[i]
+			if x.committed > commits[pi] && x.committed < next {
+				want = append(want, osm.Update{Index: 0, Version: x.version, Timestamp: time.Unix(x.committed, 0), ChangesetID: osm.ChangesetID(x.cs), Lat: x.lat, Lon: x.lon})
+			}
+		}
+		if sub2c > commits[pi] && sub2c < next {
+			want = append(want, osm.Update{Index: 1, Version: 2, Timestamp: time.Unix(sub2c, 0), ChangesetID: 12})
+		}
+		vAssert(vSame(r.Updates, want), "updates-are-exactly-the-later-versions")
+	}
+}
